@@ -35,15 +35,16 @@ Local Open Scope nat_scope.
 Definition Rely (t : nat) (sh sh1 : qshared) : Prop :=
   (oqm sh = Some t <-> oqm sh1 = Some t) /\ (ofm sh = Some t <-> ofm sh1 = Some t) /\
   (oqm sh = Some t -> ql sh1 = ql sh /\ (cnc sh <= cnc sh1)%Z) /\
-  (g_under sh = true -> g_under sh1 = true).
+  (g_under sh = true -> g_under sh1 = true) /\
+  (In t (g_awake sh) <-> In t (g_awake sh1)).
 
 Lemma Rely_refl t sh : Rely t sh sh.
 Proof. repeat split; auto; lia. Qed.
 
 Lemma Rely_trans t a b c : Rely t a b -> Rely t b c -> Rely t a c.
 Proof.
-  intros (A1 & A2 & A3 & A4) (B1 & B2 & B3 & B4).
-  split; [tauto|]. split; [tauto|]. split; [|tauto].
+  intros (A1 & A2 & A3 & A4 & A5) (B1 & B2 & B3 & B4 & B5).
+  split; [tauto|]. split; [tauto|]. split; [|split; tauto].
   intros Hq. destruct (A3 Hq) as [X Y]. destruct (B3 (proj1 A1 Hq)) as [X' Y']. split; [congruence|lia].
 Qed.
 
@@ -59,7 +60,8 @@ Record kstep (t : nat) (sh : qshared) (lo : qlocals) (sh' : qshared) (lo' : qloc
   k_set : ql sh = [] -> ql sh' <> [] -> lowes lo' = true;
   k_drop : lowes lo = true -> lowes lo' = false ->
            ql sh' = [] \/ cnc sh' <> 0%Z \/ In t (g_awake sh') \/ (exists rest, clog sh = CNotify t :: rest);
-  k_awake : incl (g_awake sh) (g_awake sh') \/ ql sh' = [];
+  k_awake : incl (g_awake sh) (g_awake sh') \/ ql sh' = [] \/ cnc sh' <> 0%Z \/ g_under sh' = true;
+  k_self : forall u, u <> t -> (In u (g_awake sh') <-> In u (g_awake sh));
   k_log : clog sh' = clog sh \/ (forall t0 rest, clog sh' <> CNotify t0 :: rest)
 }.
 
@@ -71,9 +73,10 @@ Qed.
 
 Lemma kstep_rely t u sh lo sh' lo' : kstep t sh lo sh' lo' -> u <> t -> Rely u sh sh'.
 Proof.
-  intros K Hu. destruct K as [Kq Kn Ko Kf Ku _ _ _ _]. repeat split; try congruence; auto.
-  - destruct Kq as [X|X]; [exact X|]. congruence.
-  - lia.
+  intros K Hu. destruct K as [Kq Kn Ko Kf Ku _ _ _ Ks _].
+  split; [rewrite Ko; tauto|]. split; [rewrite Kf; tauto|]. split; [|split; [exact Ku|]].
+  - intros X. split; [destruct Kq as [Y|Y]; [exact Y|congruence]|lia].
+  - symmetry. apply Ks. exact Hu.
 Qed.
 
 (* what the wait loop has established when it is left with result false: the wait timed out, and its last evaluation
@@ -114,7 +117,7 @@ Definition pre (i : instr) (sh : qshared) (lo : qlocals) : Prop :=
   | IUnlock FM => ofm sh = Some t
   | IADec NC => oqm sh = Some t /\ lowes lo = true /\ (g_under sh = true \/ (1 <= cnc sh)%Z)
   | ICvWait _ => oqm sh = Some t /\ ofm sh <> Some t /\ lowes lo = true /\
-                 (ql sh = [] \/ cnc sh <> 0%Z \/ g_under sh = true)
+                 (ql sh = [] \/ cnc sh <> 0%Z \/ g_under sh = true) /\ ~ In t (g_awake sh)
   | _ => True
   end.
 
@@ -246,6 +249,7 @@ Proof.
   - intros X Y. congruence.
   - intros X Y. rewrite (H X) in Y. discriminate Y.
   - left. rewrite F. apply incl_refl.
+  - intros u _. rewrite F. tauto.
 Qed.
 
 Ltac ks_same := apply kstep_same; ksimpl; try reflexivity; try (intros; assumption); try congruence.
@@ -254,14 +258,22 @@ Ltac ks_same := apply kstep_same; ksimpl; try reflexivity; try (intros; assumpti
 Lemma kstep_ghost t sh lo sh' lo' :
   ql sh' = ql sh -> cnc sh' = cnc sh -> oqm sh' = oqm sh -> ofm sh' = ofm sh -> (g_under sh = true -> g_under sh' = true) ->
   clog sh' = clog sh ->
-  (incl (g_awake sh) (g_awake sh') \/ ql sh' = []) ->
+  (incl (g_awake sh) (g_awake sh') \/ ql sh' = [] \/ cnc sh' <> 0%Z \/ g_under sh' = true) ->
+  (forall u, u <> t -> (In u (g_awake sh') <-> In u (g_awake sh))) ->
   (lowes lo = true -> lowes lo' = false ->
    ql sh' = [] \/ cnc sh' <> 0%Z \/ In t (g_awake sh') \/ (exists rest, clog sh = CNotify t :: rest)) ->
   kstep t sh lo sh' lo'.
 Proof.
-  intros A B C D E F G H. split; auto.
+  intros A B C D E F G S H. split; auto.
   intros X Y. congruence.
 Qed.
+
+Lemma awake_self_same (t : nat) (l : list nat) : forall u, u <> t -> (In u l <-> In u l).
+Proof. tauto. Qed.
+Lemma awake_self_cons (t : nat) (l : list nat) : forall u, u <> t -> (In u (t :: l) <-> In u l).
+Proof. intros u Hu. cbn [In]. split; [intros [X|X]; [congruence|exact X]|auto]. Qed.
+Lemma awake_self_remove (t : nat) (l : list nat) : forall u, u <> t -> (In u (remove Nat.eq_dec t l) <-> In u l).
+Proof. intros u Hu. split; [intros X; apply in_remove in X; tauto|intros X; apply in_in_remove; assumption]. Qed.
 
 Lemma nonempty_false {A} (l : list A) : nonempty l = false -> l = [].
 Proof. destruct l; [reflexivity|discriminate]. Qed.
@@ -271,6 +283,7 @@ Proof. destruct l; [discriminate|intros _ X; discriminate X]. Qed.
 Ltac ks_ghost :=
   apply kstep_ghost; ksimpl; try reflexivity; try (intros; assumption);
   try (left; apply incl_refl); try (left; apply incl_tl; apply incl_refl);
+  try apply awake_self_same; try apply awake_self_cons; try apply awake_self_remove;
   try (let X := fresh in let Y := fresh in intros X Y; congruence).
 
 Lemma eem_wk t (Q : qshared -> qlocals -> Prop) sh lo :
@@ -356,14 +369,15 @@ Proof.
   repeat wk1.
   - ks_ghost. intros _ _. right. right. left. left. reflexivity.
   - apply H; ksimpl; auto. intros X; discriminate X.
-  - ks_ghost.
+  - ks_ghost. destruct (C1 Hq eq_refl) as [Z|[Z|Z]]; [right; left; exact Z|right; right; left; lia|right; right; right; exact Z].
   - (* about to park: the predicate was false on values that still stand *)
-    ksimpl. destruct R as (Rq & Rf & Rl & Ru). destruct (Rl Hq1) as [X Y].
-    split; [tauto|]. split; [tauto|]. split; [reflexivity|].
-    destruct (C1 Hq eq_refl) as [Z|[Z|Z]].
-    + left. congruence.
-    + right. left. lia.
-    + right. right. auto.
+    ksimpl. destruct R as (Rq & Rf & Rl & Ru & Ra). ksimpl. destruct (Rl Hq1) as [X Y].
+    split; [tauto|]. split; [tauto|]. split; [reflexivity|]. split.
+    + destruct (C1 Hq eq_refl) as [Z|[Z|Z]].
+      * left. congruence.
+      * right. left. lia.
+      * right. right. auto.
+    + intros In0. apply Ra in In0. apply remove_In in In0. exact In0.
   - intros sh2 b G2 F2. repeat wk1.
     + (* timed out: one more evaluation of the predicate, then return its value *)
       apply ecp_wk. intros sh3 lo3 R3 G3 A3 B3 C3 D3.
@@ -446,13 +460,14 @@ Proof.
   - intros X Y. congruence.
   - intros X Y. rewrite (H X) in Y. discriminate Y.
   - left. rewrite F. apply incl_refl.
+  - intros u _. rewrite F. tauto.
 Qed.
 
 Ltac relyd :=
   repeat match goal with
          | R : Rely _ _ _ |- _ =>
-             let Rq := fresh "Rq" in let Rf := fresh "Rf" in let Rl := fresh "Rl" in let Ru := fresh "Ru" in
-             destruct R as (Rq & Rf & Rl & Ru)
+             let Rq := fresh "Rq" in let Rf := fresh "Rf" in let Rl := fresh "Rl" in let Ru := fresh "Ru" in let Ra := fresh "Ra" in
+             destruct R as (Rq & Rf & Rl & Ru & Ra)
          end; ksimpl.
 
 Ltac own := relyd; dsimpl;
@@ -465,7 +480,8 @@ Ltac ks_full :=
   | first [let X := fresh in intros X; exact X | intros; reflexivity]
   | let X := fresh in let Y := fresh in intros X Y; first [reflexivity | contradiction | congruence]
   | let X := fresh in let Y := fresh in intros X Y; first [discriminate | congruence | left; reflexivity]
-  | first [left; apply incl_refl | left; apply incl_tl; apply incl_refl | right; reflexivity]
+  | first [left; apply incl_refl | left; apply incl_tl; apply incl_refl | right; left; reflexivity]
+  | first [apply awake_self_same | apply awake_self_cons | apply awake_self_remove]
   | first [left; reflexivity | right; intros; discriminate] ].
 
 Ltac ks_notified := ks_ghost; intros _ _; right; right; right; eexists; reflexivity.
@@ -487,10 +503,10 @@ Proof.
   all: try exact I.
   all: try ks_auto.
   all: try solve [own].
-  all: try solve [ks_ghost; right; apply nonempty_false; assumption].
-  all: try solve [destruct R0 as (Rq0 & _ & Rl0 & Ru0); ksimpl; split; [apply Rq0; reflexivity|]; split; [reflexivity|];
+  all: try solve [ks_ghost; right; left; apply nonempty_false; assumption].
+  all: try solve [destruct R0 as (Rq0 & _ & Rl0 & Ru0 & _); ksimpl; split; [apply Rq0; reflexivity|]; split; [reflexivity|];
                   left; apply Ru0; reflexivity].
-  all: try solve [destruct R0 as (Rq0 & _ & Rl0 & Ru0); ksimpl; split; [apply Rq0; reflexivity|]; split; [reflexivity|]; right;
+  all: try solve [destruct R0 as (Rq0 & _ & Rl0 & Ru0 & _); ksimpl; split; [apply Rq0; reflexivity|]; split; [reflexivity|]; right;
                   apply Z.leb_gt in E; destruct (Rl0 eq_refl) as [_ X]; lia].
   1,2: (split; [reflexivity|]; split; [own|]; intros sh' lo' X Y Z V; repeat wk2; try exact I; try solve [own]).
 Qed.
@@ -506,11 +522,17 @@ Definition J (sh : qshared) (ths : list thread) : Prop :=
 Definition Nfact (ths : list thread) : Prop :=
   (exists th, In th ths /\ status th = TWoken) \/ (forall th, In th ths -> status th <> TParked false).
 
+(* who is in g_awake is a thread that is running or has finished (never one that is waiting) *)
+Definition okst (th : thread) : Prop := status th = TRun \/ status th = TFinished.
+Definition AWs (sh : qshared) (ths : list thread) : Prop :=
+  forall u, In u (g_awake sh) -> exists th, nth_error ths u = Some th /\ okst th.
+
 Record KG (sh : qshared) (ths : list thread) : Prop := mkKG {
   kg_good : GoodSh sh;
   kg_j : J sh ths;
   kg_n : forall t0 rest, clog sh = CNotify t0 :: rest -> Nfact ths;
-  kg_own : forall o, oqm sh = Some o \/ ofm sh = Some o -> o < length ths
+  kg_own : forall o, oqm sh = Some o \/ ofm sh = Some o -> o < length ths;
+  kg_aw : AWs sh ths
 }.
 
 Lemma in_mid {A} (x : A) a y b : In x (a ++ y :: b) <-> In x a \/ x = y \/ In x b.
@@ -556,11 +578,47 @@ Lemma J_sheq sh sh' ths :
   ql sh' = ql sh -> cnc sh' = cnc sh -> g_under sh' = g_under sh -> g_awake sh' = g_awake sh -> J sh ths -> J sh' ths.
 Proof. intros A B C D H. unfold J in *. rewrite A, B, C, D. exact H. Qed.
 
+Lemma nth_mid_eq {A} (a : list A) x b : nth_error (a ++ x :: b) (length a) = Some x.
+Proof. induction a as [|y r IH]; cbn [app length nth_error]; auto. Qed.
+
+Lemma nth_mid_ne {A} (a : list A) x y b : forall u, u <> length a -> nth_error (a ++ x :: b) u = nth_error (a ++ y :: b) u.
+Proof.
+  induction a as [|z r IH]; intros [|u] H; cbn [app nth_error length] in *; try reflexivity.
+  - contradiction.
+  - apply IH. intros E. apply H. rewrite E. reflexivity.
+Qed.
+
+Lemma AWs_replace sh a th th' b : AWs sh (a ++ th :: b) -> (okst th -> okst th') -> AWs sh (a ++ th' :: b).
+Proof.
+  intros H Hk u Hu. destruct (H u Hu) as (x & Nx & Ox). destruct (Nat.eq_dec u (length a)) as [->|Hne].
+  - rewrite nth_mid_eq in Nx. injection Nx as <-. exists th'. split; [apply nth_mid_eq|auto].
+  - exists x. split; [|exact Ox]. rewrite <- Nx. apply nth_mid_ne. exact Hne.
+Qed.
+
+Lemma AWs_sheq sh sh' ths : g_awake sh' = g_awake sh -> AWs sh ths -> AWs sh' ths.
+Proof. intros E H u Hu. rewrite E in Hu. apply H. exact Hu. Qed.
+
+(* the same shared state, one thread replaced *)
+Lemma KG_same_sh sh a th th' b :
+  KG sh (a ++ th :: b) ->
+  (status th' = TParked false -> status th = TParked false) -> (witness th -> witness th') ->
+  (status th = TWoken -> status th' = TWoken) -> (okst th -> okst th') ->
+  KG sh (a ++ th' :: b).
+Proof.
+  intros [A B C D AW] H1 H2 H3 H4. constructor.
+  - exact A.
+  - eapply J_replace; eauto.
+  - intros t0 rs E. eapply Nfact_replace; [exact (C _ _ E)| |]; auto.
+  - intros o H. rewrite (mid_length a _ th). apply D. exact H.
+  - eapply AWs_replace; eauto.
+Qed.
+
 (* one piece of local code of a running thread *)
 Lemma kstep_KG t sh a cd cl l b sh' cd' cl' l' :
+  length a = t ->
   KG sh (a ++ mkTh cd cl l TRun :: b) -> kstep t sh l sh' l' -> KG sh' (a ++ mkTh cd' cl' l' TRun :: b).
 Proof.
-  intros [Hg Hj Hn Ho] K. pose proof K as [Kq Kn Koq Kof Ku Kset Kdrop Kaw Klog].
+  intros La [Hg Hj Hn Ho Haw] K. pose proof K as [Kq Kn Koq Kof Ku Kset Kdrop Kaw Kself Klog].
   constructor.
   - eapply kstep_good; eauto.
   - intros U (p & Hp & Sp) Q C.
@@ -590,11 +648,15 @@ Proof.
                      +++ exists x. split; [apply in_mid; auto|left; exact Hx2].
                  --- destruct P0 as (q & Hq1 & Hq2). exfalso. exact (N q Hq1 Hq2).
         -- left. exists w. split; [apply in_mid; auto|exact Hw2].
-      * right. destruct Kaw as [I|I]; [|contradiction].
+      * right. destruct Kaw as [I|[I|[I|I]]]; [|contradiction|contradiction|congruence].
         destruct (g_awake sh) as [|x r]; [contradiction|]. intros E. specialize (I x (or_introl eq_refl)). rewrite E in I. destruct I.
   - intros t0 rest E. destruct Klog as [L|L]; [|exfalso; exact (L _ _ E)].
     rewrite L in E. eapply Nfact_replace; [exact (Hn _ _ E)| |]; cbn [status]; auto.
   - intros o H. rewrite Koq, Kof in H. rewrite (mid_length a _ (mkTh cd cl l TRun)). apply Ho. exact H.
+  - intros u Hu. destruct (Nat.eq_dec u t) as [->|Hne].
+    + exists (mkTh cd' cl' l' TRun). split; [rewrite <- La; apply nth_mid_eq|left; reflexivity].
+    + apply (Kself u Hne) in Hu. destruct (Haw u Hu) as (x & Nx & Ox). exists x. split; [|exact Ox].
+      rewrite <- Nx. apply nth_mid_ne. rewrite La. exact Hne.
 Qed.
 
 (* ---------- per-thread assertions ---------- *)
@@ -602,7 +664,7 @@ Qed.
    with the local code that follows the wait *)
 Definition stopped (th : thread) : Prop :=
   match status th with
-  | TRun => match code th with [] => True | i :: _ => is_sync i = true end
+  | TRun => match code th with [] => False | i :: _ => is_sync i = true end
   | _ => True
   end.
 
@@ -641,68 +703,52 @@ Proof. destruct l; reflexivity. Qed.
 
 Lemma KG_log sh ths e : (forall t0, e <> CNotify t0) -> KG sh ths -> KG (sh_log sh e) ths.
 Proof.
-  intros He [A B C D]. constructor; auto.
+  intros He [A B C D AW]. constructor; auto.
   intros t0 rest E. cbn [clog sh_log] in E. injection E as E _. exfalso. exact (He _ E).
 Qed.
 
 (* ---------- soundness: local code ---------- *)
 Lemma advance_k t fuel : forall sh cd cl l a b,
+  length a = t ->
   KG sh (a ++ mkTh cd cl l TRun :: b) -> wkl t cd (Post t) sh l ->
   KG (fst (advance fuel t sh (mkTh cd cl l TRun))) (a ++ snd (advance fuel t sh (mkTh cd cl l TRun)) :: b) /\
   (forall u, u <> t -> Rely u sh (fst (advance fuel t sh (mkTh cd cl l TRun)))) /\
   Wth t (snd (advance fuel t sh (mkTh cd cl l TRun))) (fst (advance fuel t sh (mkTh cd cl l TRun))).
 Proof.
-  induction fuel as [|f IH]; intros sh cd cl l a b HG HW.
+  induction fuel as [|f IH]; intros sh cd cl l a b La HG HW.
   - cbn [advance fst snd]. split; [exact HG|]. split; [intros; apply Rely_refl|exact HW].
   - cbn [advance code calls lo]. destruct cd as [|i rest].
     + cbn [wkl] in HW. destruct HW as (P1 & P2 & P3). destruct cl as [|c r].
       * cbn [fst snd]. split; [|split; [intros; apply Rely_refl|unfold Wth; cbn [status]; tauto]].
-        destruct HG as [A B C D]. constructor; auto.
-        -- eapply J_replace; [exact B| |]; cbn [status]; [discriminate|].
-           intros [X|[_ X]]; [discriminate X|]. cbn [lo] in X. congruence.
-        -- intros t0 rs E. eapply Nfact_replace; [exact (C _ _ E)| |]; cbn [status]; [discriminate|discriminate].
-        -- intros o H. rewrite (mid_length a _ (mkTh [] [] l TRun)). apply D. exact H.
-      * apply IH; [|apply all_calls_wk; assumption].
-        destruct HG as [A B C D]. constructor; auto.
-        -- eapply J_replace; [exact B| |]; cbn [status]; [auto|].
-           intros [X|[_ X]]; [discriminate X|]. cbn [lo] in X. congruence.
-        -- intros t0 rs E. eapply Nfact_replace; [exact (C _ _ E)| |]; cbn [status]; auto.
-        -- intros o H. rewrite (mid_length a _ (mkTh [] (c :: r) l TRun)). apply D. exact H.
+        eapply KG_same_sh; [exact HG| | | |]; cbn [status]; try discriminate.
+        -- intros [X|[_ X]]; [discriminate X|]. cbn [lo] in X. congruence.
+        -- intros _. right. reflexivity.
+      * apply IH; [exact La| |apply all_calls_wk; assumption].
+        eapply KG_same_sh; [exact HG| | | |]; cbn [status]; auto.
+        intros [X|[_ X]]; [discriminate X|]. cbn [lo] in X. congruence.
     + cbn [wkl] in HW. destruct i as [m|m|x|x|x| |timed|tt f0|r c u v|timed| | | |rr];
         try (cbn [fst snd]; split; [exact HG|]; split; [intros; apply Rely_refl|exact HW]).
       * (* ILocal *)
         change (kstep t sh l (fst (f0 t sh l)) (snd (f0 t sh l)) /\ wkl t rest (Post t) (fst (f0 t sh l)) (snd (f0 t sh l))) in HW.
         destruct HW as [K HW]. destruct (f0 t sh l) as [sh1 lo1]. cbn [fst snd] in *.
-        destruct (IH sh1 rest cl lo1 a b (kstep_KG _ _ _ _ _ _ _ _ _ _ _ HG K) HW) as (X & Y & Z).
+        destruct (IH sh1 rest cl lo1 a b La (kstep_KG _ _ _ _ _ _ _ _ _ _ _ La HG K) HW) as (X & Y & Z).
         split; [exact X|]. split; [|exact Z]. intros u Hu. eapply Rely_trans; [eapply kstep_rely; eauto|apply Y; exact Hu].
       * (* IIf *)
         rewrite wki_if in HW.
-        apply IH; [destruct HG as [A B C D]; constructor; auto;
-                   [eapply J_replace; [exact B| |]; cbn [status lo]; auto
-                   |intros t0 rs E; eapply Nfact_replace; [exact (C _ _ E)| |]; cbn [status]; auto
-                   |intros o H; rewrite (mid_length a _ (mkTh (IIf r c u v :: rest) cl l TRun)); apply D; exact H]|].
+        apply IH; [exact La|eapply KG_same_sh; [exact HG| | | |]; cbn [status lo]; auto|].
         apply wkl_app. destruct (c sh l); exact HW.
       * (* IWaitLoop *)
-        apply IH; [destruct HG as [A B C D]; constructor; auto;
-                   [eapply J_replace; [exact B| |]; cbn [status lo]; auto
-                   |intros t0 rs E; eapply Nfact_replace; [exact (C _ _ E)| |]; cbn [status]; auto
-                   |intros o H; rewrite (mid_length a _ (mkTh (IWaitLoop timed :: rest) cl l TRun)); apply D; exact H]|].
+        apply IH; [exact La|eapply KG_same_sh; [exact HG| | | |]; cbn [status lo]; auto|].
         apply wkl_app. destruct HW as (X & Y & Z). apply wait_loop_wk; assumption.
       * (* IRes *)
         change (wkl t rest (Post t) (sh_log sh (CRes t (lres l))) l) in HW.
-        destruct (IH (sh_log sh (CRes t (lres l))) rest cl l a b) as (X & Y & Z); [|exact HW|].
-        { apply KG_log; [discriminate|]. destruct HG as [A B C D]; constructor; auto;
-            [eapply J_replace; [exact B| |]; cbn [status lo]; auto
-            |intros t0 rs E; eapply Nfact_replace; [exact (C _ _ E)| |]; cbn [status]; auto
-            |intros o H; rewrite (mid_length a _ (mkTh (IRes :: rest) cl l TRun)); apply D; exact H]. }
+        destruct (IH (sh_log sh (CRes t (lres l))) rest cl l a b La) as (X & Y & Z); [|exact HW|].
+        { apply KG_log; [discriminate|]. eapply KG_same_sh; [exact HG| | | |]; cbn [status lo]; auto. }
         split; [exact X|]. split; [|exact Z]. intros u Hu. eapply Rely_trans; [apply Rely_log_any|apply Y; exact Hu].
       * (* IDone *)
         change (wkl t rest (Post t) (sh_log sh (CDone t)) l) in HW.
-        destruct (IH (sh_log sh (CDone t)) rest cl l a b) as (X & Y & Z); [|exact HW|].
-        { apply KG_log; [discriminate|]. destruct HG as [A B C D]; constructor; auto;
-            [eapply J_replace; [exact B| |]; cbn [status lo]; auto
-            |intros t0 rs E; eapply Nfact_replace; [exact (C _ _ E)| |]; cbn [status]; auto
-            |intros o H; rewrite (mid_length a _ (mkTh (IDone :: rest) cl l TRun)); apply D; exact H]. }
+        destruct (IH (sh_log sh (CDone t)) rest cl l a b La) as (X & Y & Z); [|exact HW|].
+        { apply KG_log; [discriminate|]. eapply KG_same_sh; [exact HG| | | |]; cbn [status lo]; auto. }
         split; [exact X|]. split; [|exact Z]. intros u Hu. eapply Rely_trans; [apply Rely_log_any|apply Y; exact Hu].
 Qed.
 
@@ -762,7 +808,7 @@ Proof.
   intros HN HG HW HO.
   destruct (nth_error_split _ _ HN) as (a & b & E & La). subst others. subst t.
   rewrite set_th_mid in HG. rewrite !set_th_mid.
-  destruct (advance_k (length a) fuel sh_e cd cl l a b HG HW) as (X & Y & Z).
+  destruct (advance_k (length a) fuel sh_e cd cl l a b eq_refl HG HW) as (X & Y & Z).
   split; [exact X|].
   intros u th Hu. destruct (Nat.eq_dec u (length a)) as [->|Hne].
   - rewrite nth_mid in Hu. injection Hu as <-. exact Z.
@@ -778,7 +824,7 @@ Lemma KG_eff_same sh sh' a th th' b :
   status th' = status th -> (lowes (lo th) = true -> lowes (lo th') = true) ->
   KG sh' (a ++ th' :: b).
 Proof.
-  intros [A B C D] E1 E2 E3 E4 E5 E6 E7 E8. constructor.
+  intros [A B C D AW] E1 E2 E3 E4 E5 E6 E7 E8. constructor.
   - unfold GoodSh in *. rewrite E2, E3. exact A.
   - eapply J_sheq; eauto. eapply J_replace; [exact B| |].
     + rewrite E7. auto.
@@ -786,6 +832,7 @@ Proof.
   - intros t0 rest E. destruct E5 as [L|L]; [|exfalso; exact (L _ _ E)]. rewrite L in E.
     eapply Nfact_replace; [exact (C _ _ E)| |]; rewrite E7; auto.
   - intros o H. rewrite (mid_length a _ th). apply E6. exact H.
+  - eapply AWs_sheq; [exact E4|]. eapply AWs_replace; [exact AW|]. unfold okst. rewrite E7. auto.
 Qed.
 
 Lemma eff_KG t a th b i rest sh :
@@ -812,20 +859,22 @@ Proof.
   - (* IAInc *) destruct x; cbn [eff fst snd].
     + eapply KG_eff_same; [exact HG| | | | | | | |]; sh_simpl; cbn [status lo]; lo_simpl; auto; try (right; intros; discriminate).
     + (* the notify counter goes up: notification is not enabled afterwards *)
-      destruct HG as [A B C D]. constructor; sh_simpl.
+      destruct HG as [A B C D AW]. constructor; sh_simpl.
       * intros U. sh_simpl. specialize (A U). lia.
       * intros U _ _ Cn. sh_simpl. specialize (A U). lia.
       * intros t0 rs E. discriminate E.
       * intros o H. rewrite (mid_length a _ th). apply D. exact H.
+      * eapply AWs_replace; [exact AW|]. unfold okst. cbn [status]. auto.
   - (* IADec *) destruct x; cbn [eff fst snd].
     + eapply KG_eff_same; [exact HG| | | | | | | |]; sh_simpl; cbn [status lo]; lo_simpl; auto; try (right; intros; discriminate).
     + (* the notify counter comes down: this thread owes the wake-up *)
       cbn [pre] in HP. destruct HP as (P1 & P2 & P3).
-      destruct HG as [A B C D]. constructor; sh_simpl.
+      destruct HG as [A B C D AW]. constructor; sh_simpl.
       * intros U. sh_simpl. destruct P3 as [X|X]; [congruence|lia].
       * intros U _ _ _. left. eexists. split; [apply in_mid; right; left; reflexivity|]. right. cbn [status lo]. auto.
       * intros t0 rs E. discriminate E.
       * intros o H. rewrite (mid_length a _ th). apply D. exact H.
+      * eapply AWs_replace; [exact AW|]. unfold okst. cbn [status]. auto.
   - (* IALoad *) destruct x; cbn [eff fst snd];
       (eapply KG_eff_same; [exact HG| | | | | | | |]; sh_simpl; cbn [status lo]; lo_simpl; auto; try (right; intros; discriminate)).
   - (* IStart *) cbn [eff fst snd]. eapply KG_eff_same; [exact HG| | | | | | | |]; cbn [status lo]; auto.
@@ -841,23 +890,23 @@ Proof.
   destruct i as [m|m|x|x|x| |timed|tt f|r c w v|timed| | | |rr]; try discriminate Sy; cbn [eff fst snd].
   - specialize (En m eq_refl). destruct m; cbn [owner_of] in En; unfold Rely; cbn [eff fst snd]; sh_simpl.
     + split; [split; intros X; [congruence|exfalso; eapply Hne; eauto]|]. split; [tauto|].
-      split; [intros X; congruence|auto].
+      split; [intros X; congruence|split; [auto|tauto]].
     + split; [tauto|]. split; [split; intros X; [congruence|exfalso; eapply Hne; eauto]|].
-      split; [intros X; split; [reflexivity|lia]|auto].
+      split; [intros X; split; [reflexivity|lia]|split; [auto|tauto]].
   - destruct m; cbn [pre] in HP; unfold Rely; cbn [eff fst snd]; sh_simpl.
     + split; [split; intros X; [rewrite HP in X; exfalso; eapply Hne; eauto|discriminate X]|]. split; [tauto|].
-      split; [intros X; rewrite HP in X; exfalso; eapply Hne; eauto|auto].
+      split; [intros X; rewrite HP in X; exfalso; eapply Hne; eauto|split; [auto|tauto]].
     + split; [tauto|]. split; [split; intros X; [rewrite HP in X; exfalso; eapply Hne; eauto|discriminate X]|].
-      split; [intros X; split; [reflexivity|lia]|auto].
-  - destruct x; unfold Rely; cbn [eff fst snd]; sh_simpl; (split; [tauto|]); (split; [tauto|]); (split; [intros _; split; [reflexivity|lia]|auto]).
-  - destruct x; cbn [pre] in HP; unfold Rely; cbn [eff fst snd]; sh_simpl; (split; [tauto|]); (split; [tauto|]); (split; [|auto]).
+      split; [intros X; split; [reflexivity|lia]|split; [auto|tauto]].
+  - destruct x; unfold Rely; cbn [eff fst snd]; sh_simpl; (split; [tauto|]); (split; [tauto|]); (split; [intros _; split; [reflexivity|lia]|split; [auto|tauto]]).
+  - destruct x; cbn [pre] in HP; unfold Rely; cbn [eff fst snd]; sh_simpl; (split; [tauto|]); (split; [tauto|]); (split; [|split; [auto|tauto]]).
     + intros _; split; [reflexivity|lia].
     + destruct HP as (P1 & _). intros X. rewrite P1 in X. exfalso; eapply Hne; eauto.
-  - destruct x; unfold Rely; cbn [eff fst snd]; sh_simpl; (split; [tauto|]); (split; [tauto|]); (split; [intros _; split; [reflexivity|lia]|auto]).
-  - unfold Rely; cbn [eff fst snd]; sh_simpl; (split; [tauto|]); (split; [tauto|]); (split; [intros _; split; [reflexivity|lia]|auto]).
+  - destruct x; unfold Rely; cbn [eff fst snd]; sh_simpl; (split; [tauto|]); (split; [tauto|]); (split; [intros _; split; [reflexivity|lia]|split; [auto|tauto]]).
+  - unfold Rely; cbn [eff fst snd]; sh_simpl; (split; [tauto|]); (split; [tauto|]); (split; [intros _; split; [reflexivity|lia]|split; [auto|tauto]]).
   - apply Rely_refl.
   - apply Rely_refl.
-  - unfold Rely; cbn [eff fst snd]; sh_simpl; (split; [tauto|]); (split; [tauto|]); (split; [intros _; split; [reflexivity|lia]|auto]).
+  - unfold Rely; cbn [eff fst snd]; sh_simpl; (split; [tauto|]); (split; [tauto|]); (split; [intros _; split; [reflexivity|lia]|split; [auto|tauto]]).
 Qed.
 
 Lemma Stopped_nth ths u th : Stopped ths -> nth_error ths u = Some th -> stopped th.
@@ -925,18 +974,20 @@ Lemma perform_cvwait t sh ths th timed rest :
 Proof.
   intros HG HW HS HN St Ec.
   pose proof (HW t th HN) as Wt. unfold Wth in Wt. rewrite St, Ec in Wt. cbn [wkl wki] in Wt.
-  destruct (Wt sh (Rely_refl t sh) (kg_good _ _ HG)) as [(P1 & P2 & P3 & P4) Hk].
+  destruct (Wt sh (Rely_refl t sh) (kg_good _ _ HG)) as [(P1 & P2 & P3 & P4 & P5) Hk].
   set (th' := mkTh rest (calls th) (lo_to (lo th) false) (TParked timed)).
   assert (Rl : forall u, u <> t -> Rely u sh (sh_oqm (sh_log sh (CCvBlock t)) None)).
   { intros u Hu. unfold Rely. sh_simpl. rewrite P1.
     split; [split; intros X; [injection X as X; congruence|discriminate X]|]. split; [tauto|].
-    split; [intros X; injection X as X; congruence|auto]. }
+    split; [intros X; injection X as X; congruence|split; [auto|tauto]]. }
   split.
-  - destruct HG as [A B C D]. constructor.
+  - destruct HG as [A B C D AW]. constructor.
     + exact A.
     + intros U _ Q Cn. sh_simpl. destruct P4 as [X|[X|X]]; [contradiction|contradiction|congruence].
     + intros t0 rs E. discriminate E.
     + intros o H. sh_simpl. rewrite set_th_length. destruct H as [H|H]; [discriminate H|apply D; auto].
+    + intros u Hu. sh_simpl. destruct (AW u Hu) as (x & Nx & Ox). exists x. split; [|exact Ox].
+      rewrite (nth_set _ _ _ _ _ HN). destruct (Nat.eqb_spec u t) as [->|_]; [contradiction|exact Nx].
   - intros u x Hu. rewrite (nth_set _ _ _ _ _ HN) in Hu. destruct (Nat.eqb u t) eqn:E.
     + apply Nat.eqb_eq in E. subst u. injection Hu as <-. unfold Wth. cbn [status code lo th']. sh_simpl. lo_simpl.
       split; [exact P3|]. split; [discriminate|]. split; [exact P2|].
@@ -957,19 +1008,20 @@ Proof.
   pose proof (HW t th HN) as Wt. unfold Wth in Wt. rewrite St in Wt. destruct Wt as (W1 & W2 & W3 & W4).
   apply (finish_k t fuel ths th); [exact HN| | |].
   - destruct (nth_error_split _ _ HN) as (a & b & E & La). subst ths. rewrite <- La. rewrite set_th_mid.
-    destruct HG as [A B C D]. unfold wake_sh. constructor.
+    destruct HG as [A B C D AW]. unfold wake_sh. constructor.
     + exact A.
     + eapply J_sheq; [| | | |eapply J_replace; [exact B| |]]; sh_simpl; auto; cbn [status].
       * discriminate.
       * intros _. right. split; [reflexivity|exact W1].
     + intros t0 rs E. discriminate E.
     + intros o H. sh_simpl. rewrite (mid_length a _ th). destruct H as [H|H]; [injection H as <-; rewrite app_length; cbn [length]; lia|apply D; auto].
+    + eapply AWs_sheq; [reflexivity|]. eapply AWs_replace; [exact AW|]. intros _. left. reflexivity.
   - specialize (W4 sh (ltimedout (lo th)) (kg_good _ _ HG) W3). rewrite lo_to_id in W4. exact W4.
   - intros u thu Hu Hnu. split; [|eapply Stopped_nth; eauto].
     eapply Wth_stable; [eapply Stopped_nth; eauto| |apply HW; exact Hnu].
     unfold Rely, wake_sh. sh_simpl. rewrite En.
     split; [split; intros X; [discriminate X|injection X as X; congruence]|]. split; [tauto|].
-    split; [intros X; discriminate X|auto].
+    split; [intros X; discriminate X|split; [auto|tauto]].
 Qed.
 
 Definition is_parked (x : thread) : bool := match status x with TParked _ => true | _ => false end.
@@ -1005,7 +1057,11 @@ Proof.
     assert (HN' : nth_error (set_th ths w (woken wt)) t = Some th).
     { rewrite (nth_set _ _ _ _ _ Nw). assert (X : Nat.eqb t w = false) by (apply Nat.eqb_neq; auto). rewrite X. exact HN. }
     apply (finish_k t fuel _ th); [exact HN'| |exact Hk|].
-    + destruct HG as [A B C D]. constructor.
+    + destruct HG as [A B C D AW]. constructor.
+      5: { intros u Hu. sh_simpl. destruct (AW u Hu) as (x & Nx & Ox).
+           rewrite (nth_set _ _ _ _ _ HN'). destruct (Nat.eqb_spec u t) as [->|Hut]; [exists th_e; split; [reflexivity|left; reflexivity]|].
+           rewrite (nth_set _ _ _ _ _ Nw). destruct (Nat.eqb_spec u w) as [->|Huw]; [|exists x; auto].
+           exfalso. rewrite Nw in Nx. injection Nx as <-. unfold is_parked in Pw. destruct Ox as [X|X]; rewrite X in Pw; discriminate Pw. }
       * exact A.
       * eapply J_sheq; [| | | |eapply (J_mono sh ths); [exact B| |]]; sh_simpl; auto.
         -- intros x' Hx' Px'. destruct (In_set_th _ _ _ _ _ HN' Hx') as [->|(u & Hu & Nu)]; [discriminate Px'|].
@@ -1030,7 +1086,9 @@ Proof.
         eapply Wth_stable; [eapply Stopped_nth; eauto|apply Rely_log_any|apply HW; exact Nu].
   - pose proof (first_parked_none _ _ _ EP) as Pn.
     apply (finish_k t fuel _ th); [exact HN| |exact Hk|].
-    + destruct HG as [A B C D]. constructor.
+    + destruct HG as [A B C D AW]. constructor.
+      5: { intros u Hu. sh_simpl. destruct (AW u Hu) as (x & Nx & Ox).
+           rewrite (nth_set _ _ _ _ _ HN). destruct (Nat.eqb_spec u t) as [->|Hut]; [exists th_e; split; [reflexivity|left; reflexivity]|exists x; auto]. }
       * exact A.
       * eapply J_sheq; [| | | |eapply (J_mono sh ths); [exact B| |]]; sh_simpl; auto.
         -- intros x' Hx' Px'. destruct (In_set_th _ _ _ _ _ HN Hx') as [->|(u & Hu & Nu)]; [discriminate Px'|].
@@ -1098,13 +1156,14 @@ Proof.
   intros HG HW HS HN St. set (wt' := mkTh (code wt) (calls wt) (lo_to (lo wt) true) TWoken).
   split; [|split].
   - destruct (nth_error_split _ _ HN) as (a & b & E & La). subst ths. rewrite <- La. rewrite set_th_mid.
-    destruct HG as [A B C D]. constructor.
+    destruct HG as [A B C D AW]. constructor.
     + exact A.
     + eapply J_sheq; [| | | |eapply J_replace; [exact B| |]]; sh_simpl; auto; cbn [status wt'].
       * discriminate.
       * intros _. left. reflexivity.
     + intros t0 rs E. discriminate E.
     + intros o H. sh_simpl. rewrite (mid_length a _ wt). apply D. exact H.
+    + eapply AWs_sheq; [reflexivity|]. eapply AWs_replace; [exact AW|]. unfold okst. rewrite St. intros [X|X]; discriminate X.
   - intros u x Hu. rewrite (nth_set _ _ _ _ _ HN) in Hu. destruct (Nat.eqb u w) eqn:E.
     + apply Nat.eqb_eq in E. subst u. injection Hu as <-.
       pose proof (HW w wt HN) as Ww. unfold Wth in *. rewrite St in Ww. cbn [status code lo wt']. sh_simpl. lo_simpl.
@@ -1152,6 +1211,7 @@ Proof.
       destruct Hin as (p & <- & _). discriminate St.
     + intros t0 rs E. discriminate E.
     + intros o [H|H]; discriminate H.
+    + intros u Hu. destruct Hu.
   - intros u th Hu. unfold start_threads in Hu. apply nth_error_In in Hu. apply in_map_iff in Hu. destruct Hu as (p & <- & _).
     unfold Wth. cbn [status code lo wkl wki]. intros sh1 (Rq & Rf & _) _. split; [exact I|]. cbn [eff fst snd].
     unfold Post. split; [reflexivity|]. cbn [oqm ofm sh0] in *. split; intros X; [apply Rq in X|apply Rf in X]; discriminate X.
@@ -1221,10 +1281,42 @@ Proof.
       pose proof (holder_enabled cfg o HK Ho) as X. rewrite Hdead in X. discriminate X.
 Qed.
 
+(* a running thread can run, or the owner of the mutex it waits for can *)
+Lemma running_means_someone_enabled cfg u th :
+  KInv cfg -> nth_error (ths cfg) u = Some th -> status th = TRun -> exists v, th_enabled cfg v = true.
+Proof.
+  intros HK Nu St. pose proof HK as (HG & HW & HS).
+  pose proof (Stopped_nth _ _ _ HS Nu) as S. unfold stopped in S. rewrite St in S.
+  destruct (code th) as [|i r] eqn:Ec; [contradiction|].
+  assert (Hen : th_enabled cfg u = enabled (shs cfg) th) by (unfold th_enabled; rewrite Nu; reflexivity).
+  unfold enabled in Hen. rewrite St, Ec in Hen.
+  destruct i as [m|m|x|x|x| |timed|tt f|rr c v v'|timed| | | |rr]; try discriminate S; try (exists u; exact Hen).
+  destruct (owner_of (shs cfg) m) as [o|] eqn:Eo; [|exists u; exact Hen].
+  exists o. apply (holder_enabled cfg o HK). destruct m; cbn [owner_of] in Eo; auto.
+Qed.
+
+(* the sharper form: the thread that did not drain the queue has FINISHED its program (a thread in g_awake is never one
+   that waits again) *)
+Theorem no_lost_wakeup_names_a_finished_thread cfg :
+  KInv cfg ->
+  (forall t, th_enabled cfg t = false) ->
+  (exists th, In th (ths cfg) /\ status th = TParked false) ->
+  ql (shs cfg) <> [] -> cnc (shs cfg) = 0%Z -> g_under (shs cfg) = false ->
+  exists u th, In u (g_awake (shs cfg)) /\ nth_error (ths cfg) u = Some th /\ status th = TFinished.
+Proof.
+  intros HK Hdead HP HQ HC HU. pose proof (no_lost_wakeup cfg HK Hdead HP HQ HC HU) as NE.
+  destruct (g_awake (shs cfg)) as [|u r] eqn:E; [contradiction|].
+  destruct HK as (HG & HW & HS).
+  destruct (kg_aw _ _ HG u) as (th & Nu & [St|St]); [rewrite E; left; reflexivity| |].
+  - exfalso. destruct (running_means_someone_enabled cfg u th (conj HG (conj HW HS)) Nu St) as (v & Ev).
+    rewrite Hdead in Ev. discriminate Ev.
+  - exists u, th. split; [left; reflexivity|]. split; assumption.
+Qed.
+
 (* ---------- the side condition, decided on concrete runs ---------- *)
 Definition stoppedb (th : thread) : bool :=
   match status th with
-  | TRun => match code th with [] => true | i :: _ => is_sync i end
+  | TRun => match code th with [] => false | i :: _ => is_sync i end
   | _ => true
   end.
 
@@ -1239,7 +1331,7 @@ Proof.
   induction n as [|f IH]; intros cfg H; cbn [stopped_along stopped_alongb] in *; [exact I|].
   destruct (sched_step cfg) as [c|]; [|exact I]. apply andb_true_iff in H. destruct H as [H1 H2].
   split; [|apply IH; exact H2]. intros th Hin. rewrite forallb_forall in H1. specialize (H1 th Hin).
-  unfold stopped, stoppedb in *. destruct (status th); try exact I. destruct (code th); [exact I|exact H1].
+  unfold stopped, stoppedb in *. destruct (status th); try exact I. destruct (code th); [discriminate H1|exact H1].
 Qed.
 
 (* the hypotheses of the two theorems are met by actual runs, and the last disjunct of no_lost_wakeup is needed:
